@@ -345,7 +345,8 @@ def _check_files(res: Result, proj: Project, w: World):
             k = n.comparators[0].value
             ks.append(k + 1 if isinstance(n.ops[0], ast.Gt) else k)
     min_len = min(ks) if ks else 0
-    res.check(max(ks or [0]) <= 2, "P4", "get_rankings_from_file:line-filter", rd.loc(),
+    worst = max(ks) if ks else 0
+    res.check(worst <= 2, "P4", "get_rankings_from_file:line-filter", rd.loc(),
               ok_detail="every line the writer can emit passes the reader's length filter",
-              bad_detail=f"reader keeps lines of length >= {max(ks)}, the writer emits '[]' (length 2) for a ranking "
+              bad_detail=f"reader keeps lines of length >= {worst}, the writer emits '[]' (length 2) for a ranking "
                          f"without bucket: such a ranking is silently dropped")
